@@ -194,6 +194,7 @@ type vfIdP struct {
 	Mint         func(m *vfMintCtx)
 	Userinfo     func(c *vfIdpCall, claims map[string]interface{})
 	UserinfoPost func(c *vfIdpCall, claims map[string]interface{}) // flavour of the profile document (runs after Userinfo)
+	GraphPost    func(c *vfIdpCall, doc map[string]interface{}) // alters a page of the Graph group listing
 	// TaskFor attributes a call that arrives without a task (the caller used a context of its own, e.g. context.TODO() in the
 	// claim extractor) to one of the scheduler's tasks, so that it becomes a yield point like every other call
 	TaskFor func(c *vfIdpCall) string
@@ -496,6 +497,8 @@ func (p *vfIdP) ServeHTTP(rw http.ResponseWriter, r *http.Request) {
 		call.Endpoint = "plain:validate"
 	case "/logout":
 		call.Endpoint = "logout"
+	case "/v1.0/me/transitiveMemberOf": // (Microsoft Graph, served by the same node under graph.microsoft.com)
+		call.Endpoint = "graph"
 	default:
 		call.Endpoint = "unknown:" + r.URL.Path
 	}
@@ -652,6 +655,21 @@ func (p *vfIdP) ServeHTTP(rw http.ResponseWriter, r *http.Request) {
 	case "logout":
 		call.Outcome = "200"
 		rw.WriteHeader(200)
+	case "graph":
+		// two pages of group ids, linked the way Graph pages its answers
+		call.Outcome = "200"
+		page := 0
+		if form.Get("$skiptoken") != "" {
+			page = 1
+		}
+		doc := map[string]interface{}{"value": []interface{}{map[string]interface{}{"id": fmt.Sprintf("g-%d-1", page)}, map[string]interface{}{"id": fmt.Sprintf("g-%d-2", page)}}}
+		if page == 0 {
+			doc["@odata.nextLink"] = "https://graph.microsoft.com/v1.0/me/transitiveMemberOf?$skiptoken=1"
+		}
+		if p.GraphPost != nil {
+			p.GraphPost(call, doc)
+		}
+		p.writeJSON(rw, 200, doc)
 	default:
 		call.Outcome = "404"
 		rw.WriteHeader(404)
